@@ -99,7 +99,7 @@ def audit(path, root):
 
 
 TREES = ["none_missing", "some_missing", "unreadable_file", "invalid_utf8", "empty_source_dir", "missing_source_dir", "bad_config",
-         "big_tree"]
+         "missing_config", "big_tree"]
 LOCKS = ["absent", "valid", "valid_behind", "corrupt", "empty", "absent+stale_scratch", "valid+stale_scratch"]
 # how check mode is asked for (drawn per point, not a product dimension): every spelling the command line accepts or
 # rejects - a rejected command line must not touch anything either
@@ -129,6 +129,8 @@ def make_tree(box, tree, rnd):
         os.makedirs(os.path.join(box.proj, "src"))
     elif tree == "missing_source_dir":
         pass
+    elif tree == "missing_config":
+        pass
     elif tree == "bad_config":
         box.write("src/a.rs", b'fn a() { info!("x"); }\n')
     elif tree == "big_tree":
@@ -145,7 +147,12 @@ def work(job):
     res = {"evaluations": 1, "nontrivial": [], "violations": [], "samples": [], "inconclusive": {}, "counters": {}}
     with core.Box(tag="c04") as box:
         make_tree(box, tree, rnd)
-        if tree == "bad_config":
+        if tree == "missing_config":
+            # the file named by -c does not exist (a typo: .yaml for .yml), its directory does
+            box.write("src/a.rs", b'fn a() { info!("x"); }\n')
+            box.write("Breadlog.yml", core.make_config())
+            cfg = os.path.join(box.proj, "Breadlog.yaml")
+        elif tree == "bad_config":
             cfg = box.write("Breadlog.yaml", "---\nsource_dir: [1, 2\n")
         else:
             cfg = box.write("Breadlog.yaml", core.make_config(use_cache=cache, structured=True if structured else None))
